@@ -13,7 +13,7 @@ import (
 
 func (fc *FnCtx) mapComps(m *types.Map) (has, val string) {
 	ks, vs := fc.tc.sortOf(m.Key()), fc.tc.sortOf(m.Elem())
-	id := mangle(types.TypeString(m.Key(), nil)) + "|" + mangle(types.TypeString(m.Elem(), nil))
+	id := mangle(canonTypeString(m.Key())) + "|" + mangle(canonTypeString(m.Elem())) // byte == uint8, rune == int32 (ext_crypto.go)
 	has, val = "MH|"+id, "MV|"+id
 	fc.registerComp(has, "(Array Ptr (Array "+ks+" Bool))")
 	fc.registerComp(val, "(Array Ptr (Array "+ks+" "+vs+"))")
@@ -490,6 +490,8 @@ func (fr *Frame) unop(x *ssa.UnOp, st *State, g string) {
 		if strings.HasPrefix(ld, "(select H0_") {
 			// read straight from a component of the ENTRY heap: whatever it holds was allocated before entry
 			fc.assume(g, tc.wf(fr.vals[x].t, x.Type(), compInit("W")))
+		} else {
+			fr.entryClosureAtLoad(v.t, et, g) // ext_crypto.go: the same fact about the entry heap's value at this address
 		}
 	case token.NOT:
 		fr.setVal(x, "Bool", not(v.t))
@@ -612,6 +614,7 @@ func (fr *Frame) lookup(x *ssa.Lookup, st *State, g string) {
 		val := ite(has, app("select", app("select", fc.comp(st, mv, fc.comps[mv]), v.t), k.t), tc.zero(mt.Elem()))
 		vt := fc.define(fr.name(x), tc.sortOf(mt.Elem()), val)
 		fc.assume(g, tc.wf(vt, mt.Elem(), fc.watermark(st)))
+		fr.mapEntryClosure(mt, v.t, k.t, g) // ext_crypto.go: heap closure of the entry state for this (map, key)
 		if x.CommaOk {
 			fr.vals[x] = SV{typ: x.Type(), tuple: []SV{{t: vt, typ: mt.Elem()}, {t: fc.define(fr.name(x)+"_ok", "Bool", has), typ: boolT}}}
 		} else {
